@@ -710,7 +710,7 @@ func explicitPrefix(e *Env, fv *foundViolation) []workerlib.ExplicitRun {
 		} else if to := ses.From + fv.V.RunIndex + 1; to < ses.To {
 			ses.To = to
 		}
-	case "solo", "wrap", "overlap":
+	case "solo", "wrap", "overlap", "stall":
 		if to := ses.From + fv.V.RunIndex + 1; to < ses.To {
 			ses.To = to
 		}
